@@ -48,9 +48,9 @@ def gen_cases(rng, tier):
                     for shift in (False, True):
                         if tier == "quick" and rng.random() < 0.5 and n not in (1, 2, 3, 5):
                             continue
-                        dtype = rng.choice(["complex", "real", "int"])
+                        dtype = rng.choice(["complex", "real", "int", "complex", "real", "int", "float32", "complex64", "uint8", "bool"])
                         # amplitude regime: rounding error of an FFT is RELATIVE to the data, so tiny and huge data must work alike
-                        amp = rng.choice([1.0, 1.0, 1.0, 1e-12, 1e-15, 1e9]) if dtype != "int" else 1.0
+                        amp = rng.choice([1.0, 1.0, 1.0, 1e-12, 1e-15, 1e9]) if dtype not in ("int", "uint8", "bool") else 1.0
                         namp = rng.choice([0.25, 0.25, 1e-12, 1e-6])
                         g = rng.choice(gvs)
                         seed = rng.getrandbits(32)
@@ -79,14 +79,25 @@ def _data(case):
     def draw():
         if case["dtype"] == "int":
             return r.integers(-9, 10, size=shape)
+        if case["dtype"] == "uint8":
+            return r.integers(0, 200, size=shape).astype(np.uint8)
+        if case["dtype"] == "bool":
+            return r.integers(0, 2, size=shape).astype(bool)
+        if case["dtype"] == "float32":
+            return (r.normal(size=shape) * 3).astype(np.float32)
+        if case["dtype"] == "complex64":
+            return (r.normal(size=shape) + 1j * r.normal(size=shape)).astype(np.complex64)
         if case["dtype"] == "real":
             return r.normal(size=shape) * 3
         return r.normal(size=shape) + 1j * r.normal(size=shape)
     amp = case.get("amp", 1.0)
-    s = draw() * amp if case["dtype"] != "int" else draw()
+    exact = case["dtype"] in ("int", "uint8", "bool")
+    s = draw() if exact else draw() * (np.float32(amp) if case["dtype"] in ("float32", "complex64") and 1e-30 < amp < 1e30 else amp)
     nz = draw() * (case.get("namp", 0.25) * amp) if case["noise"] else None
     if nz is not None and case["dtype"] == "int":
         nz = r.integers(-3, 4, size=shape)
+    if nz is not None and case["dtype"] in ("uint8", "bool"):
+        nz = r.integers(0, 3, size=shape).astype(np.uint8)
     z = case.get("zero")
     if z == "all":
         s = s * 0
@@ -95,6 +106,10 @@ def _data(case):
         s[0 if z == "x" else 1] = 0
         if nz is not None:
             nz[0 if z == "x" else 1] = 0
+    elif z in ("cancel-x", "cancel-y") and nz is not None and case["dtype"] in ("uint8", "bool"):
+        k = 0 if z == "cancel-x" else 1          # unsigned samples cannot cancel: an unlit row instead
+        s[k] = 0
+        nz[k] = 0
     elif z in ("cancel-x", "cancel-y") and nz is not None:
         k = 0 if z == "cancel-x" else 1
         nz = nz.astype(np.result_type(nz, s))
@@ -124,6 +139,7 @@ def run_impl(case):
             gv(**case["gv"])
             s, nz = _data(case)
             x = _obj(case, s, nz)
+            x0 = (np.array(x.signal, copy=True), None if x.noise is None else np.array(x.noise, copy=True))   # operand before any call
             with time_limit(30):
                 if case["kind"] == "waxis":
                     w = x.w(case["shift"])
@@ -133,10 +149,16 @@ def run_impl(case):
                     res.update(status="ok", cls=type(y).__name__, npol=getattr(y, "n_pol", None), n=len(y),
                                sig=[[[z.real, z.imag] for z in row] for row in _rows(y.signal)],
                                noise=None if y.noise is None else [[[z.real, z.imag] for z in row] for row in _rows(y.noise)],
-                               in_sig=[[[z.real, z.imag] for z in row] for row in _rows(x.signal)],
-                               in_noise=None if x.noise is None else [[[z.real, z.imag] for z in row] for row in _rows(x.noise)],
+                               in_sig=[[[z.real, z.imag] for z in row] for row in _rows(x0[0])],
+                               in_noise=None if x0[1] is None else [[[z.real, z.imag] for z in row] for row in _rows(x0[1])],
                                power=[float(v) for v in np.atleast_1d(x.power())],
                                power_sig=[float(v) for v in np.atleast_1d(x.power('signal'))])
+                    y2 = x(case["dom"], case["shift"])        # the same request again on the same object
+                    res["repeat_same"] = bool(np.array_equal(y2.signal, y.signal) and
+                                              ((y2.noise is None) == (y.noise is None)) and
+                                              (y.noise is None or np.array_equal(y2.noise, y.noise)))
+                    res["in_unchanged"] = bool(np.array_equal(x.signal, x0[0], equal_nan=True) and
+                                               (x0[1] is None or np.array_equal(x.noise, x0[1], equal_nan=True)))
                     # round trip and opposite shift on the real objects
                     inv = "t" if case["dom"] in ("w", "f") else "w"
                     if case["shift"]:
@@ -145,9 +167,9 @@ def run_impl(case):
                         res["unshift_err"] = float(np.max(np.abs(un - ref)))
                     else:
                         back = y(inv)
-                        res["roundtrip_err"] = float(np.max(np.abs(back.signal - x.signal)))
-                        if x.noise is not None:
-                            res["roundtrip_err_noise"] = float(np.max(np.abs(back.noise - x.noise)))
+                        res["roundtrip_err"] = float(np.max(np.abs(back.signal - x0[0])))
+                        if x0[1] is not None:
+                            res["roundtrip_err_noise"] = float(np.max(np.abs(back.noise - x0[1])))
                         res["back_cls"] = type(back).__name__
     except Timeout as e:
         res.update(status="timeout", detail=str(e))
@@ -230,7 +252,8 @@ def compare(case, res, reqs, replies):
     out += cmp_rows("noise", mnoise, res["noise"])
     if replies[1].startswith("ok "):
         p = Toks(replies[1][3:]).flist()
-        if len(p) != len(res["power"]) or any(not (abs(a - b) <= 1e-9 * max(1e-300, abs(b))) for a, b in zip(p, res["power"])):
+        ptol = 1e-5 if case["dtype"] in ("float32", "complex64") else 1e-9
+        if len(p) != len(res["power"]) or any(not (abs(a - b) <= ptol * max(1e-300, abs(b))) for a, b in zip(p, res["power"])):
             out.append(f"power: model {p} impl {res['power']}")
     else:
         out.append(f"power reply {replies[1][:60]}")
@@ -267,6 +290,10 @@ def oracle(case, res):
         v.append(("C02:shape", f"result {res['cls']}/n_pol={res['npol']}/len={res['n']} for input {want_cls}/{case['npol']}/{n}"))
     if (res["noise"] is None) != (not case["noise"]):
         v.append(("C02:noise-presence", "noise component presence changed by the transform"))
+    if not res.get("repeat_same", True):
+        v.append(("C02:repeat", f"the same transform request on the same object gave a different result the second time (n={n})"))
+    if not res.get("in_unchanged", True):
+        v.append(("C02:input-modified", f"x({case['dom']!r},{case['shift']}) modified the object it was applied to (n={n})"))
     fwd = case["dom"] in ("w", "f")
 
     def ref_tr(rows):
@@ -304,7 +331,9 @@ def oracle(case, res):
     a = np.array([[complex(p, q) for p, q in row] for row in res["in_sig"]])
     tot = a if res["in_noise"] is None else a + np.array([[complex(p, q) for p, q in row] for row in res["in_noise"]])
     pw = np.mean(np.abs(tot) ** 2, axis=-1)
-    if len(res["power"]) != len(pw) or not np.all(np.abs(np.array(res["power"]) - pw) <= 1e-12 * np.maximum(1e-300, pw)):
+    # single-precision containers are squared/averaged in single precision: tolerance follows the dtype of the samples
+    ptol = 1e-5 if case["dtype"] in ("float32", "complex64") else 1e-12
+    if len(res["power"]) != len(pw) or not np.all(np.abs(np.array(res["power"]) - pw) <= ptol * np.maximum(1e-300, pw)):
         v.append(("C02:power", f"power() {res['power']} != mean|signal+noise|^2 {pw.tolist()}"))
     return v
 
